@@ -452,11 +452,12 @@ impl UndoOperation for Paste {
 #[derive(Default)]
 pub struct AddFloatingLayer {
     current_layer: usize,
+    old: Option<(crate::Role, String)>,
 }
 
 impl AddFloatingLayer {
     pub(crate) fn new(current_layer: usize) -> Self {
-        Self { current_layer }
+        Self { current_layer, old: None }
     }
 }
 
@@ -467,18 +468,24 @@ impl UndoOperation for AddFloatingLayer {
 
     fn undo(&mut self, edit_state: &mut EditState) -> EngineResult<()> {
         if let Some(layer) = edit_state.buffer.layers.get_mut(self.current_layer) {
-            if matches!(layer.role, crate::Role::Image) {
-                layer.role = crate::Role::PasteImage;
+            if let Some((role, title)) = self.old.take() {
+                layer.role = role;
+                layer.properties.title = title;
             } else {
-                layer.role = crate::Role::PastePreview;
+                if matches!(layer.role, crate::Role::Image) {
+                    layer.role = crate::Role::PasteImage;
+                } else {
+                    layer.role = crate::Role::PastePreview;
+                }
+                layer.properties.title = fl!(crate::LANGUAGE_LOADER, "layer-pasted-name");
             }
-            layer.properties.title = fl!(crate::LANGUAGE_LOADER, "layer-pasted-name");
         }
         Ok(())
     }
 
     fn redo(&mut self, edit_state: &mut EditState) -> EngineResult<()> {
         if let Some(layer) = edit_state.buffer.layers.get_mut(self.current_layer) {
+            self.old = Some((layer.role, layer.properties.title.clone()));
             if matches!(layer.role, crate::Role::PasteImage) {
                 layer.role = crate::Role::Image;
             } else {
